@@ -1,5 +1,5 @@
 From Coq Require Import ZArith List Bool.
-From V Require Import Val Bytes Writers C13Pool.
+From V Require Import Val Bytes Writers C13Pool C13Shared.
 Import ListNotations.
 Open Scope Z_scope.
 
@@ -65,3 +65,14 @@ Definition x_C13_pool_ok (v : val) : val :=
   vbool (ok_pool progs
                  (map (fun e => (as_nat (nthv 0 e), map as_bytes (as_list (nthv 1 e)))) (as_list (nthv 0 o)))
                  (map as_nat (as_list (nthv 1 o)))).
+
+(* ---------- shared packets (Model/C13Shared.v) ---------- *)
+(* oracle on ((published ..) (after ..)): every published packet is unchanged after the history *)
+Definition x_C13_pure_ok (v : val) : val :=
+  vbool (ok_pure (map as_bytes (as_list (nthv 0 (nthv 0 v)))) (map as_bytes (as_list (nthv 0 (nthv 1 v))))).
+(* oracle on ((published ..) ((packet announced body) ..)): the function of C13_model_passes_shared *)
+Definition x_C13_frames_ok (v : val) : val :=
+  let pub := map as_bytes (as_list (nthv 0 (nthv 0 v))) in
+  vbool (ok_frames (fun i => nth i pub [])
+                   (map (fun e => {| f_writer := O; f_pkt := as_nat (nthv 0 e); f_len := as_nat (nthv 1 e);
+                                     f_body := as_bytes (nthv 2 e) |}) (as_list (nthv 0 (nthv 1 v))))).
